@@ -128,6 +128,16 @@ func init() {
 			return "FAIL parse-error"
 		}
 		s := c.Ident()
+		// NaN-ness as LLVM reads the pattern (x86_fp80: also every encoding with a non-zero exponent field and a clear integer bit)
+		if a[0] == "x86_fp80" && len(a[1]) == 20 {
+			se, _ := strconv.ParseUint(a[1][:4], 16, 16)
+			m, _ := strconv.ParseUint(a[1][4:], 16, 64)
+			e := se & 0x7FFF
+			isNaN := (e == 0x7FFF && m != 1<<63) || (e != 0 && e != 0x7FFF && m>>63 == 0)
+			if isNaN != c.NaN {
+				return fmt.Sprintf("FAIL nan-ness-changed %s (a NaN to LLVM: %v)", s, isNaN)
+			}
+		}
 		c2, err := constant.NewFloatFromString(typ, s)
 		if err != nil {
 			return "FAIL reparse-error " + s
@@ -147,6 +157,14 @@ func init() {
 			// hexadecimal output must be the input's bit pattern (canonical spelling: same digits, upper case, no leading zeros for the 0x form)
 			got := strings.TrimLeft(strings.TrimPrefix(s, hexPrefix(a[0])), "0")
 			want := strings.TrimLeft(strings.ToUpper(a[1]), "0")
+			if a[0] == "x86_fp80" && len(a[1]) == 20 {
+				// a pseudo-denormal (exponent field 0, integer bit set) has the value of the encoding with exponent field 1: LLVM itself prints that one
+				se, _ := strconv.ParseUint(a[1][:4], 16, 16)
+				m, _ := strconv.ParseUint(a[1][4:], 16, 64)
+				if se&0x7FFF == 0 && m>>63 == 1 {
+					want = strings.TrimLeft(fmt.Sprintf("%04X%016X", se|1, m), "0")
+				}
+			}
 			if got != want {
 				return "FAIL bits " + s
 			}
